@@ -298,3 +298,55 @@ def _replay_discover(f):
 
 REPLAYERS = [(r'verify_\w+_constraint\.post\.doc$', replay_verify),
              (r'discover_field_constraints\.post\.\w+$', replay_discover)]
+
+
+# ---------------------------------------------------------------------------
+# detect_*_constraint: a refuted record-level contract is replayed by running the real detect_df on small frames of
+# the column types the kind applies (and does not apply) to, judged by the driver's record-level oracle
+# ---------------------------------------------------------------------------
+
+_DETECT_FRAMES = [('int64', (1, -2, 0, 7)), ('Int64', (1, None, 3, 3)), ('float64', (0.5, None, -2.0)),
+                  ('object-str', ('a', None, 'ab', 'a')), ('object-str', ('', 'é£')), ('bool', (True, False)),
+                  ('datetime64[ns]', None)]
+_DETECT_CHECKS = {'min': ('C06.record-flag.min',), 'max': ('C06.record-flag.max',), 'sign': ('C06.record-flag.sign',),
+                  'min_length': ('C06.record-flag.min_length',), 'max_length': ('C06.record-flag.max_length',),
+                  'tdda_type': ('C06.record-flag.type',), 'max_nulls': ('C06.record-flag.max_nulls',),
+                  'no_duplicates': ('C06.record-flag.no_duplicates',),
+                  'allowed_values': ('C06.record-flag.allowed_values',), 'rex': ('C06.record-flag.rex',)}
+_DETECT_ALWAYS = ('C06.flag-column-present', 'C06.failing-constraint-flags-some-record', 'C06.n_failures-equals-false-flags',
+                  'C06.detect_df.noraise')
+
+
+def replay_detect(f):
+    try:
+        from bounded import constraints_bounded as cb, frames as F
+        m = re.search(r'(?:detect_(\w+)_constraint|df_fuzzy_(gt|lt))\.post\.', f.name)
+        if not m:
+            return {'outcome': 'unavailable', 'note': 'not a detector obligation'}
+        kind = m.group(1) or {'gt': 'min', 'lt': 'max'}[m.group(2)]
+        wanted = _DETECT_CHECKS.get(kind, ()) + _DETECT_ALWAYS
+        tried = []
+        for family, values in _DETECT_FRAMES:
+            if values is None:
+                pool = F.POOLS.get(family)
+                if not pool:
+                    continue
+                values = tuple(pool[:2]) + (None,)
+            tried.append((family, [repr(v) for v in values]))
+            out = cb._work((family, [tuple(values)], ('C06',), {}))
+            for name, w, detail in [(x[0], x[1], x[2]) for x in out[3]]:
+                if name in wanted and (kind in ('tdda_type',) or w.get('kind', kind.replace('tdda_type', 'type')) in (kind, None)
+                                       or name in _DETECT_ALWAYS):
+                    return {'outcome': 'confirmed',
+                            'note': 'detect_df on a small real frame disagrees with the record-level meaning: %s' % detail[:300],
+                            'concrete_input': {'column dtype': family, 'values': [repr(v) for v in values],
+                                               'constraints': w.get('constraints'), 'failed_check': name}}
+        return {'outcome': 'not-reproduced',
+                'note': 'detect_df agrees with the record-level meaning on %d small real frames (the counter-model is over '
+                        'the stubbed pandas operations; no concrete frame shows the difference)' % len(tried),
+                'frames_tried': tried}
+    except Exception:
+        return {'outcome': 'unavailable', 'note': 'replay harness error: ' + traceback.format_exc()[-500:]}
+
+
+REPLAYERS.append((r'(detect_\w+_constraint|df_fuzzy_(gt|lt))\.post\.', replay_detect))
